@@ -114,6 +114,10 @@ def run_case(ctx, res, p):
         sa = a
         shift = -(dd if dd is not None else d_state) * np.log(a)
     tight = 1e-7
+    # the 1e-12 squared-distance regulariser does not scale with the data: in units of the length scale it is
+    # rho = 1e-12 / ls^2, different in the two problems when the data are rescaled (exact law carries eps/a^2)
+    rho = abs(1e-12 / float(e2.ls) ** 2 - 1e-12 / float(e1.ls) ** 2)
+    res.dev("regulariser_rho", rho)
     # ---- tight: the inference problem
     if p["estimator"] != "dim":
         nn1, nn2 = np.asarray(e1.nn_distances, float), np.asarray(e2.nn_distances, float)
@@ -146,13 +150,13 @@ def run_case(ctx, res, p):
                 continue
             dv = abs(l2 - (l1 + const)) / max(abs(l1), 1.0)
             res.dev("loss_rel", dv)
-            if dv > 1e-6:
+            if dv > 1e-6 + 2e3 * rho:
                 res.oracle_fail("loss at a common latent vector does not transform (invariant / + n log a)", p,
                                 detail={"rel": float(dv), "l1": l1, "l2": l2}, signature="C08:loss")
         if p["estimator"] != "dim":
             dv = np.max(np.abs(z0b - z0)) / max(np.max(np.abs(z0)), 1e-300)
             res.dev("initial_value_rel", dv)
-            if dv > 1e-5:
+            if dv > 1e-5 + 2e4 * rho:
                 res.oracle_fail("starting point changes under the transformation", p, detail={"rel": float(dv)},
                                 signature="C08:initial-value")
     # ---- loose: fitted values and predictions (optimiser tolerance)
@@ -194,6 +198,12 @@ def gen_case(rng):
     est = ["density", "density", "time", "dim"][rng.integers(4)]
     n, d = 20, 2
     X, _ = gen_points(rng, n, d, kind=["plain", "clustered"][rng.integers(2)], scale=1.0)
+    if rng.random() < 0.4:
+        # a few near-coincident cells (some but not all): separations 1e-5 .. 1e-2 of the data scale
+        for _ in range(int(rng.integers(1, 4))):
+            i, j = rng.choice(n, size=2, replace=False)
+            v = rng.normal(size=d)
+            X[i] = X[j] + v / np.linalg.norm(v) * loguniform(rng, 1e-5, 1e-2)
     Xq, _ = gen_points(rng, 4, d, kind="plain", scale=0.8)
     if est == "time":
         X = np.c_[X, np.repeat(np.arange(2.0), 10)[rng.permutation(n)]]
@@ -219,7 +229,7 @@ def gen_case(rng):
         p["Q"] = Q
         p["t"] = rng.normal(size=d) * loguniform(rng, 0.1, 10.0)
     elif kind == "scale":
-        p["a"] = loguniform(rng, 1e-3, 1e3)
+        p["a"] = [1e-3, 1e3, loguniform(rng, 1e-3, 1e3), loguniform(rng, 1e-3, 1e3)][rng.integers(4)]
     elif kind == "perm":
         p["perm"] = rng.permutation(n)
     else:
